@@ -181,7 +181,8 @@ def judge_runner(case, obs, m, extra=None):
         return [('driver-error', 'K', clip(m))]
     for pr in obs['problems']:
         bad.append(('schedule-not-followed', 'K', pr))
-    if obs['raised']:
+    interrupted = (case.get('abort') == 'interrupt' and (obs['raised'] or '').startswith('KeyboardInterrupt'))
+    if obs['raised'] and not interrupted:
         bad.append(('impl-exception', 'K', obs['raised']))
     if obs['runtime_errors']:
         bad.append(('runtime-error', 'K', clip(obs['runtime_errors'])))
@@ -190,7 +191,16 @@ def judge_runner(case, obs, m, extra=None):
         # process-wide streams are the installed objects again when DoitMain.run returns
         cmp('cell-not-restored', 'P', obs['restored'], [True, True])
         if case.get('abort'):
-            cmp('abort-exit-code', 'K', obs['code'], 3)
+            # InvalidTask at execution time is a *reported* runtime error: the run ends with the error exit code (2) and
+            # the JSON document is still written (/repo 28cc2d9; before that fix complete_run raised TypeError for the
+            # announced task without result and the exit code was 3).  KeyboardInterrupt / unwritable report: exit 3.
+            # A KeyboardInterrupt raised by an action leaves DoitMain.run as it does with every other reporter (before
+            # the fix the TypeError of complete_run replaced it).
+            want = 2 if case.get('abort') == 'kwargs' else 3
+            if case.get('abort') == 'devfull' and not os.path.exists('/dev/full'):
+                want = 2          # actrun falls back to the `kwargs` form
+            if not interrupted:
+                cmp('abort-exit-code', 'K', obs['code'], want)
             return bad
         cmp('json-document', 'K', obs['json_document'], True)
         for name in ('out', 'err'):
